@@ -677,6 +677,8 @@ class Repo:
         if comp is None:
             return [dict(guards=[], pack=base['pack'], unpack=base['unpack'], assigned=set())]
         w = Walker(None)
+        w.module_tables = self.module_tables
+        w.class_tables = self.class_tables
         seen = set()
         for p in w.paths(comp.node, cls=ci):
             if p.raises():
